@@ -4,7 +4,7 @@ import fcntl, glob, hashlib, json, os, random, re, shutil, subprocess, sys, temp
 
 VERIF = os.path.dirname(os.path.dirname(os.path.abspath(__file__)))
 REPO = os.environ.get("VERIF_REPO", "/repo")
-BUILD = os.path.join(VERIF, "build")
+BUILD = os.environ.get("VERIF_BUILD", os.path.join(VERIF, "build"))
 DBUS_BUILD = os.path.join(BUILD, "dbus")
 COQ = os.path.join(VERIF, "coq")
 NPROC = os.cpu_count() or 4
@@ -92,6 +92,7 @@ def gen_tables():
 
 def coq_make(targets=None, keep_going=True):
     """Full .vo build (no -vos).  Returns (ok, log).  With keep_going, model files still get built when a proof breaks."""
+    sh(["sh", os.path.join(VERIF, "tools", "mkproject.sh")], check=True)
     if not os.path.exists(os.path.join(COQ, "Makefile")) or \
             os.path.getmtime(os.path.join(COQ, "Makefile")) < os.path.getmtime(os.path.join(COQ, "_CoqProject")):
         sh(["coq_makefile", "-f", "_CoqProject", "-o", "Makefile"], cwd=COQ, check=True)
@@ -100,10 +101,16 @@ def coq_make(targets=None, keep_going=True):
     return r.returncode == 0, r.stdout + r.stderr
 
 
-def build_ml():
-    d = os.path.join(BUILD, "ml")
+def build_ml(pkg="wire"):
+    """Compile the extracted model of one package (coq/model_<pkg>.ml + ml/<pkg>/*.ml) into build/ml/<pkg>/model."""
+    d = os.path.join(BUILD, "ml", pkg)
     os.makedirs(d, exist_ok=True)
-    srcs = [os.path.join(COQ, "model.ml"), os.path.join(COQ, "model.mli")] + sorted(glob.glob(os.path.join(VERIF, "ml", "*.ml")))
+    ext = [os.path.join(COQ, "model_%s.ml" % pkg), os.path.join(COQ, "model_%s.mli" % pkg)]
+    for e in ext:
+        if not os.path.exists(e):
+            raise BuildBroken("extraction", "missing %s (does coq/Extract/Extract%s.v compile?)" % (e, pkg.capitalize()))
+    own = sorted(glob.glob(os.path.join(VERIF, "ml", pkg, "*.ml")))
+    srcs = ext + own
     h = hashlib.sha256()
     for s in srcs:
         h.update(open(s, "rb").read())
@@ -113,9 +120,10 @@ def build_ml():
         return exe
     for s in srcs:
         shutil.copy(s, d)
-    r = sh(["ocamlfind", "ocamlopt", "-O3", "-w", "-a", "-o", "model", "model.mli", "model.ml", "driver.ml", "main.ml"], cwd=d, timeout=600)
+    names = [os.path.basename(x) for x in own if os.path.basename(x) != "main.ml"]
+    r = sh(["ocamlfind", "ocamlopt", "-O3", "-w", "-a", "-o", "model", "model_%s.mli" % pkg, "model_%s.ml" % pkg] + names + ["main.ml"], cwd=d, timeout=600)
     if r.returncode != 0:
-        raise BuildBroken("ocaml", r.stdout + r.stderr)
+        raise BuildBroken("ocaml " + pkg, r.stdout + r.stderr)
     open(stamp, "w").write(h.hexdigest())
     return exe
 
@@ -137,7 +145,7 @@ def build_harness(name, extra_libs=()):
     return exe
 
 
-def prepare(harnesses=(), need_daemon_lib=False):
+def prepare(harnesses=(), mls=("wire",)):
     """Everything a check needs, rebuilt incrementally from /repo's working tree."""
     t0 = time.time()
     info = {}
@@ -147,10 +155,17 @@ def prepare(harnesses=(), need_daemon_lib=False):
         ok, out = coq_make()
         info["coq_ok"] = ok
         info["coq_log"] = out
-        info["model"] = build_ml()
+        for m in mls:
+            info["model_" + m] = build_ml(m)
+        if mls:
+            info["model"] = info["model_" + mls[0]]
         for h in harnesses:
-            extra = ("libdbus-daemon-internal.a",) if h.startswith("bus") else ()
+            if isinstance(h, (tuple, list)):
+                h, extra = h[0], tuple(h[1])
+            else:
+                extra = ("libdbus-daemon-internal.a",) if h.startswith("bus") else ()
             info[h] = build_harness(h, extra)
+        info["daemon"] = os.path.join(DBUS_BUILD, "bin", "dbus-daemon")
     info["prepare_s"] = round(time.time() - t0, 1)
     return info
 
